@@ -1029,6 +1029,39 @@ Proof.
       try (unfold uevents, drop_ev; rewrite Hdg; unfold w0, bump; cbn [wuw ulog filter is_user_event rev app]; reflexivity).
 Qed.
 
+(** ** clone() whose (k+1)-th Clone panics *)
+Lemma fresh_ids_next c nx n : CloneProofs.fresh_ids c nx n = next_ids c nx n.
+Proof. reflexivity. Qed.
+Lemma exec_clone_f c w st v dst k r :
+  cfg_wf c -> WRep c w st -> ufuse (wuw w) = Some k ->
+  sp_clone_f c st (unext (wuw w)) v dst k = Some r -> adm_clone c w v ->
+  res_matches_f c w (exec c (OClone v dst) w) r.
+Proof.
+  intros Hwf HW Hfuse Hr Hadm. unfold sp_clone_f in Hr.
+  destruct (Nat.eqb dst v); [discriminate|].
+  destruct (get_a v st) as [av|] eqn:Hg; [|discriminate].
+  destruct (wrep_get c w st v av HW Hg) as (sv & Hgv & HV).
+  pose proof (vi_rep _ _ _ HV) as HR. pose proof (rep_len _ _ _ HR) as Hlen.
+  cbv zeta in Hr. destruct (N.ltb_spec k (N.of_nat (length (a_xs av)))) as [Hk|]; [|discriminate]. injection Hr as <-.
+  assert (Hbw : bk_wf (vbk sv)) by (rewrite (vi_bk _ _ _ HV); apply (vi_wf _ _ _ HV)).
+  assert (Hfit : fixed_backend (vbk sv) \/
+                 (N.of_nat (length (a_xs av)) <= usize_max /\
+                  c_sz c * grow_target {| vlen := 0; vcap := 0; vmem := []; vgen := 0; vbk := vbk sv |}
+                             (N.of_nat (length (a_xs av))) <= alloc_limit)).
+  { rewrite <- Hlen. apply (Hadm sv Hgv). }
+  set (kk := N.to_nat k).
+  assert (Hfk : ufuse (wuw w) = Some (N.of_nat kk)) by (unfold kk; rewrite N2Nat.id; exact Hfuse).
+  destruct (clone_vec_panics c sv (wuw w) (a_xs av) sv kk Hwf Hbw (vi_consistent _ _ _ HV) HR Hfk ltac:(unfold kk; lia) Hfit)
+    as (v' & u' & E & _ & _ & He' & Hn').
+  cbn [exec]. rewrite (bind_ok _ _ _ _ _ (peek_vec_ok v w sv Hgv)). rewrite E.
+  cbn [res_matches_f panic_res s_out s_pk s_ret s_st s_evs s_nx].
+  split; [reflexivity|split; [reflexivity|split; [reflexivity|]]].
+  constructor; cbn [wv wuw].
+  - apply (wrep_wv c w); [reflexivity|exact HW].
+  - rewrite Hn'. unfold kk. lia.
+  - rewrite He'. rewrite fresh_ids_next. reflexivity.
+Qed.
+
 Lemma exec_fused c w st k o r :
   cfg_wf c -> WRep c w st -> ufuse (wuw w) = Some k ->
   spec_step_f c st (unext (wuw w)) (Some k) o = Some r -> admissible c w o ->
@@ -1058,6 +1091,7 @@ Proof.
     exact (exec_drain_f c w st a v sb eb k r Hwf HW Hfuse Hr).
   - (* OSplice *) destruct pat; [|discriminate]. destruct f; [|discriminate]. cbn [admissible] in Hadm.
     exact (exec_splice_f c w st a v sb eb rk n wrong_at claimed k r Hwf HW Hfuse Hr Hadm).
+  - (* OClone *) cbn [admissible] in Hadm. exact (exec_clone_f c w st v dst k r Hwf HW Hfuse Hr Hadm).
 Qed.
 
 Definition armed (k : N) (w : world) : world :=
@@ -1115,6 +1149,8 @@ Proof.
     | None = Some _ => discriminate H'
     | context [if ?x then _ else _] => destruct x eqn:?
     end; cbn; split; lia.
+  - unfold sp_clone_f in H. destruct (Nat.eqb dst v); [discriminate|]. destruct (get_a v st); [|discriminate].
+    cbv zeta in H. destruct (k <? N.of_nat (length (a_xs a))); [|discriminate]. injection H as <-. cbn; split; lia.
 Qed.
 
 (** one script step, with or without a fuse *)
@@ -1207,7 +1243,9 @@ Definition exf_ops : list (option N * op) :=
     (None, ONew 3 BHeap); (None, OPush Erased 3 SWrap); (None, OPush Erased 3 SWrap);
     (Some 0, OPush Erased 3 (SLazy 1 2 0));        (* the Clone of the lazy clone panics: nothing is created, nothing changes *)
     (Some 0, OInsert Erased 3 1 (SLazy 2 2 0));    (* ... inside insert: the tail behind the insertion point stays hidden *)
-    (Some 0, OInsert Erased 3 0 (SLazyUser 1)) ].  (* ... of a value the caller owns: that value is destroyed by the caller *)
+    (Some 0, OInsert Erased 3 0 (SLazyUser 1));    (* ... of a value the caller owns: that value is destroyed by the caller *)
+    (None, OPush Erased 3 SWrap); (None, OPush Erased 3 SWrap);
+    (Some 1, OClone 3 4) ].                        (* the second Clone of clone() panics: the first clone is leaked, no vector appears *)
 Example exf_outcomes :
   map (fun r => (s_out r, s_pk r, s_evs r, map (fun o => match o with Some a => a_xs a | None => [] end) (s_st r)))
       (match spec_run_f ex_cfg [] 1 exf_ops with Some rs => rs | None => [] end)
@@ -1227,7 +1265,8 @@ Example exf_outcomes :
      (2,8,[EDrop 24; ENext; ENext; EDrop 28; EDrop 29],[[]; []; [18]]);
      (0,0,[EDrop 18; ENext],[[]; []; [30]]);
      (0,0,[],[[]; []; [30]; []]); (0,0,[],[[]; []; [30]; [31]]); (0,0,[],[[]; []; [30]; [31;32]]);
-     (2,8,[],[[]; []; [30]; [31;32]]); (2,8,[],[[]; []; [30]; [31]]); (2,8,[EDrop 33],[[]; []; [30]; []])].
+     (2,8,[],[[]; []; [30]; [31;32]]); (2,8,[],[[]; []; [30]; [31]]); (2,8,[EDrop 33],[[]; []; [30]; []]);
+     (0,0,[],[[]; []; [30]; [34]]); (0,0,[],[[]; []; [30]; [34;35]]); (2,8,[EClone 34 36],[[]; []; [30]; [34;35]])].
 Proof. vm_compute. reflexivity. Qed.
 Fixpoint Admissible_fb (c : cfg) (w : world) (ops : list (option N * op)) : bool :=
   match ops with
